@@ -34,6 +34,7 @@ type hCall struct {
 	ShareOpt bool // massive calls: use the history's one shared WithMassive option value
 	Reenter  bool // walks: the callback / loop body calls the library itself (at the first visit)
 	ReenterSame bool // ... on the tree being walked (with the same options) instead of on another tree
+	AddLate  bool // walks (callback form): at its second visit the callback adds the node Name under the root of the tree being walked
 	Model *MNode // op: clone of the tree's model at call time (what the result must be a function of)
 	// results
 	Res *opResult
@@ -46,7 +47,14 @@ func (h hCall) String() string {
 	case "add":
 		return fmt.Sprintf("task%d: t%d.node[%d].Add(%q)", h.Task, h.Tree, h.Node, h.Name)
 	case "op":
-		return fmt.Sprintf("task%d: %s on t%d", h.Task, h.Op, h.Tree)
+		extra := ""
+		if h.Reenter {
+			extra = " (its callback calls the library itself)"
+		}
+		if h.AddLate {
+			extra = fmt.Sprintf(" (at its second visit the callback does t%d.Add(%q))", h.Tree, h.Name)
+		}
+		return fmt.Sprintf("task%d: %s on t%d%s", h.Task, h.Op, h.Tree, extra)
 	default:
 		return fmt.Sprintf("task%d: %s on markdown %q", h.Task, h.Op, string(h.Doc))
 	}
@@ -211,6 +219,12 @@ func execCall(h *hCall, root *gtree.Node, jail string, idx int, yield bool, rw *
 			gtree.OutputFromRoot(io.Discard, t, opts...)
 		}
 	}
+	if h.AddLate && root != nil {
+		// the program adds a node to the tree from inside the walk: the running walk shows the
+		// tree as it was or as it is now, and ends
+		cb.inner = func() { root.Add(h.Name) }
+		cb.innerAt = 1
+	}
 	if h.ShareOpt && h.Op.Massive && sharedMassiveOpt != nil && yield {
 		// the same Option value as other calls of this history use (options are often built once)
 		for i, o := range opts {
@@ -283,6 +297,19 @@ func runHistory(c *Ctx, name string, calls []*hCall, nTasks int, sim bool, jail 
 			}
 		case "op":
 			h.Res = execCall(h, trees[h.Tree].root, jail, i, yield, rw, taskID)
+			if h.AddLate {
+				lt := trees[h.Tree]
+				n := lt.root.Add(h.Name) // (added by the callback already: this returns that node)
+				known := false
+				for _, x := range lt.nodes {
+					if x == n {
+						known = true
+					}
+				}
+				if !known {
+					lt.nodes = append(lt.nodes, n)
+				}
+			}
 		case "mdop":
 			h.Res = execCall(h, nil, jail, i, yield, rw, taskID)
 		}
@@ -547,6 +574,13 @@ func genHistory(c *Ctx, o histOpts) (calls []*hCall, nTasks int, nontrivial bool
 			if (op.Kind == "walk" || op.Kind == "walkiter") && !op.Massive && c.Chance(1, 4) {
 				h.Reenter = true
 				h.ReenterSame = op.Kind == "walk" && len(op.Branch) == 0 && c.Draw(2) == 0
+			} else if op.Kind == "walk" && !op.Massive && len(t.nodes) >= 2 && len(t.nodes) < 9 && c.Chance(1, 5) {
+				h.AddLate = true
+				h.Name = fmt.Sprintf("late-%d", len(calls))
+				k := &MNode{Name: h.Name}
+				t.model.Kids = append(t.model.Kids, k)
+				t.nodes = append(t.nodes, k)
+				c.st.Count("history.add-from-inside-a-walk")
 			}
 			t.opSeen = true
 			calls = append(calls, h)
@@ -638,6 +672,17 @@ func caseC13(c *Ctx) {
 		simfs.Uninstall()
 		c.st.Count("ops.compared")
 		if diff := h.Res.diff(want); diff != "" {
+			if h.AddLate {
+				// the walk may also show the tree with the node added during it
+				after := h.Model.Clone()
+				after.Kids = append(after.Kids, &MNode{Name: h.Name})
+				simfs.Install(simfs.NewDisk(jail))
+				want2 := execCall(&hCall{Kind: h.Kind, Op: h.Op, Prep: h.Prep, Model: after}, buildNode(after), filepath.Join(jail, "ref2"), i, false, nil, "")
+				simfs.Uninstall()
+				if h.Res.diff(want2) == "" {
+					continue
+				}
+			}
 			cls := "from-root"
 			if h.Kind == "mdop" {
 				cls = "from-markdown"
@@ -702,6 +747,25 @@ func caseC03(c *Ctx) {
 		c.st.Count("wide-tree")
 	}
 	op := genFromRootOp(c, false)
+	if c.Chance(1, 12) {
+		// long names (64..200 bytes; still legal file names)
+		var all []*MNode
+		var collect func(n *MNode)
+		collect = func(n *MNode) {
+			all = append(all, n)
+			for _, k := range n.Kids {
+				collect(k)
+			}
+		}
+		collect(model)
+		for i := 0; i < 1+c.Draw(3); i++ {
+			n := all[c.Draw(len(all))]
+			if len(n.Name) < 60 {
+				n.Name += "-" + strings.Repeat("n", 62+c.Draw(130))
+			}
+		}
+		c.st.Count("long-names")
+	}
 	// --- program: a drawn Add order that builds the model
 	type pend struct {
 		parent *gtree.Node
@@ -757,7 +821,7 @@ func caseC03(c *Ctx) {
 	}
 	if !needsFS(op) && !validatesNames(op) && c.Chance(1, 8) {
 		// not path elements, but perfectly good node names where nothing is validated
-		odd := []string{"a/b", "x/", "\xff\xfe", "tab\there"}[c.Draw(4)]
+		odd := []string{"a/b", "x/", "\xff\xfe", "tab\there", "line-longer-than-4KiB-" + strings.Repeat("L", 4100+c.Draw(5000))}[c.Draw(5)]
 		root.Add(odd)
 		model.Kids = append(model.Kids, &MNode{Name: odd})
 		prog = append(prog, fmt.Sprintf("Add(%q under %q)", odd, model.Name))
@@ -814,6 +878,7 @@ func caseC03(c *Ctx) {
 		// fully determined)
 		mop := op
 		mop.Massive = true
+		mop.NilCtx = c.Chance(1, 4) // documented: WithMassive(nil) means context.Background()
 		c.Scenario["op"] = mop.String()
 		c.st.Count("massive-from-root")
 		target := ""
